@@ -80,6 +80,13 @@ fn prepare_project(file_path: &str, output_dir: Option<&str>) -> CliResult<Prepa
     codegen.scan_for_async(&main_module.ast);
     codegen.scan_for_web(&main_module.ast);
     codegen.scan_for_list_helpers(&main_module.ast);
+    // Features used only by a dependency module (e.g. a serde derive in an imported file) need their
+    // crates in Cargo.toml just the same.
+    for module in dep_modules {
+        codegen.scan_for_serde(&module.ast);
+        codegen.scan_for_async(&module.ast);
+        codegen.scan_for_web(&module.ast);
+    }
 
     let needs_serde = codegen.needs_serde();
     let needs_tokio = codegen.needs_tokio();
